@@ -248,6 +248,15 @@ func VerifRotateMem(db *DB, wait bool) error {
 	return err
 }
 
+// VerifKickMemCompaction delivers a flush trigger to the buffer-flush goroutine
+// (rotateMem's own trigger is a non-blocking send and may be dropped).
+func VerifKickMemCompaction(db *DB) {
+	select {
+	case db.mcompCmdC <- cAuto{}:
+	case <-db.closeC:
+	}
+}
+
 // VerifWaitMemCompaction waits for a pending buffer flush.
 func VerifWaitMemCompaction(db *DB) error { return db.compTriggerWait(db.mcompCmdC) }
 
